@@ -38,7 +38,7 @@ ESSENTIAL_LABELS = {'all': ['multi_dest', 'subgroup', 'iterate_min>=1',
                             'multi_source', 'hook:loop_all',
                             'hook:initialize_pair', 'hook:reduce',
                             'hook:py_initialize', 'pre_post',
-                            'idx_by_name']}
+                            'idx_by_name', 'openmp']}
 SHARD_TIMEOUT = {'quick': 1500, 'thorough': 6 * 3600}
 
 CLASSES = ['TI', 'TL', 'TIL', 'TILP', 'TA', 'TPA', 'TP', 'TR', 'TLR', 'TPY',
@@ -439,12 +439,21 @@ def plan(ctx):
     else:
         nprog, ndata = 25, 40
         k = 16
-    return [dict(name='prog-%02d' % i, nprog=nprog, ndata=ndata)
+    return [dict(name='prog-%02d%s' % (i, '-omp' if i % 4 == 3 else ''),
+                 nprog=nprog, ndata=ndata,
+                 omp=[0, 0, 0, 4][i % 4] if i % 8 != 7 else 16)
             for i in range(k)]
 
 
 def run_shard(spec, ctx):
     stats = Stats()
+    if spec.get('omp'):
+        # OpenMP build of the same programs (per-thread scratch vectors,
+        # parallel ranges); hooks only write their own destination particle,
+        # so the result must not depend on the schedule
+        from compyle.config import get_config
+        get_config().use_openmp = True
+        stats.label('openmp')
     stats.extra['programs'] = 0
     stats.extra['jit_compiles'] = 0
     calls = [0]
